@@ -12,7 +12,7 @@ import sys
 import time
 import traceback
 
-from . import build, extract, lean
+from . import apidefaults, build, extract, lean
 from .build import VERIF, InfraError
 
 # VERIF_EVIDENCE_DIR: used only by tools/seeded_matrix.sh so that runs against a deliberately broken
@@ -173,7 +173,10 @@ def run_check(prop, tier, seed, replay_path=None):
             with open(replay_path) as f:
                 rp = json.load(f)
             res = Result()
-            still = mod.replay(ctx, rp, res)
+            if isinstance(rp.get("input"), dict) and "api_default" in rp["input"]:
+                still = apidefaults.replay(ctx, rp)
+            else:
+                still = mod.replay(ctx, rp, res)
             if still:
                 p = write_replay(prop, dict(rp, replayed_at=time.time()))
                 print("VIOLATION property=%s replay=%s" % (prop, p))
@@ -183,6 +186,7 @@ def run_check(prop, tier, seed, replay_path=None):
         # ---------------------------------------------------------------- correspond
         res = Result()
         mod.correspond(ctx, res)
+        apidefaults.check(ctx, res, prop)          # documented default arguments of the calls this property speaks about
         # a disagreement tagged with a finding id is tolerated ONLY while that finding is listed as known for this
         # property (known_findings.json); once it has been fixed (or was never listed) the tag suppresses nothing
         known_ids = {f.get("id") for f in known}
